@@ -444,7 +444,7 @@ class Ctx:
         r = self.solver.check(*extra)
         self.solver_time += time.time() - t
         if r == z3.unknown:
-            raise Unsupported('solver returned unknown: %s' % self.solver.reason_unknown())
+            raise Unsupported('solver returned unknown: %s ; query: %s' % (self.solver.reason_unknown(), [str(e)[:300] for e in extra]))
         return r == z3.sat
 
     def choose(self, options, label=''):
